@@ -115,6 +115,7 @@ def run(case):
     dissim = world.build_dissim(scn["dissim"])
     work = _workload(scn, continuum, dissim, case.get("with_cat", True))
     stats, keys, violations = {}, {"schedules": [], "scenarios": [], "completion_orders": [], "nontrivial": []}, []
+    events = []
     scn_d = digest(scn)
     keys["scenarios"].append(scn_d)
 
@@ -134,6 +135,7 @@ def run(case):
         sd = common.sched_digest(out)
         keys["schedules"].append(sd)
         keys["completion_orders"].append(digest(out.exec_stats.completion_order))
+        events.append([sd, out.exec_stats.completion_order, out.exec_stats.start_order, out.rng.log[:2000], got])
         if out.sched.in_job_switches > 0:
             keys["nontrivial"].append(digest([scn_d, sd]))
         d = _diff(ref, got)
@@ -159,7 +161,7 @@ def run(case):
                                "sig": {"what": d.split(":")[0]}, "canonical": ref, "got": _outcome(out2)})
     canon_d = digest(ref)
     return {"violations": violations, "stats": stats, "keys": keys, "digest": canon_d,
-            "record": canon_d,
+            "record": canon_d, "event_digest": digest([ref, events, [v["kind"] for v in violations]]),
             "sample": {"scenario": scn, "schedules": case["schedules"][:2], "canonical_result": ref}}
 
 
